@@ -5,6 +5,7 @@ pub mod reg;
 pub mod local;
 pub mod timer;
 pub mod fall;
+pub mod conc;
 use crate::Area;
 pub fn lookup(name: &str) -> Option<Box<dyn Area>> {
     match name {
@@ -15,6 +16,11 @@ pub fn lookup(name: &str) -> Option<Box<dyn Area>> {
         "local" => Some(Box::new(local::LocalArea)),
         "timer" => Some(Box::new(timer::TimerArea)),
         "fall" => Some(Box::new(fall::FallArea)),
+        "catom" => Some(Box::new(conc::ConcAtomic { kinds: &["counter", "intcounter", "gauge", "intgauge"] })),
+        "catomc" => Some(Box::new(conc::ConcAtomic { kinds: &["counter", "intcounter"] })),
+        "catomg" => Some(Box::new(conc::ConcAtomic { kinds: &["gauge", "intgauge"] })),
+        "cvec" => Some(Box::new(conc::ConcVec)),
+        "chist" => Some(Box::new(conc::ConcHist)),
         _ => None,
     }
 }
